@@ -366,6 +366,7 @@ func (z *zkDCS) AcquireLock(path string) bool {
 			}
 			return false
 		}
+		verifHook("AcquireLock.store", z.config.Hostname)
 		z.lockHeld.Store(fullPath, time.Now())
 		return true
 	}
@@ -375,6 +376,7 @@ func (z *zkDCS) AcquireLock(path string) bool {
 		return false
 	}
 	if owner == self {
+		verifHook("AcquireLock.store", z.config.Hostname)
 		z.lockHeld.Store(fullPath, time.Now())
 		return true
 	}
